@@ -249,7 +249,15 @@ class C20(Property):
             'maps, Counter, OrderedDict, defaultdict, abc.Mapping subclass), combined with keyword counts whose keys '
             'may also occur positionally; counts range over 0 .. 3w+2 (one call spanning several compactions). Keys: '
             'strings, or a mixed palette (None, 0, "", pair-like tuples, frozenset, bytes, float, big int). '
-            'Small families first: every positional kind x keyword overlap templates; all 2-counter histories of '
+            'Round 5: calls that RAISE PART-WAY inside the history - add(unhashable / __hash__ raises), update() '
+            'with such a key at the start / middle / end of a list, tuple, deque, generator, iterator, __getitem__ '
+            'sequence, an iterable or items() that raises half-way, a non-integer count in 8 mapping kinds (incl. a '
+            'duck-typed items()-only object) or among the keyword counts - after 0-4 earlier additions, followed '
+            'by more additions and a second failing call; failing reader / constructor calls; update() fed by a live '
+            'iterator over the counter itself (elements(), iterkeys()); keyword call forms of every method; equal keys '
+            'of another type, colliding hashes. After a failed call every reader is judged against the additions that '
+            'took effect (some prefix of what the call asks for, pinned down by the reported total). '
+            'Small families first: failing calls x pre-histories x follow-ups; live self-iterators; every positional kind x keyword overlap templates; all 2-counter histories of '
             'length <= 4 over {add, switch, update(other), update(self), re-create}; bulk counts around multiples of '
             'w; mixed-key streams; exact-rational thresholds; long updates at thresholds 0.001/0.01; "sparse" histories '
             '(no reader runs between consecutive mutators: all add-streams <= 5/6 over 3 keys, one most_common at every '
@@ -259,7 +267,9 @@ class C20(Property):
             'all add-streams up to length L over 3 keys for w=1..6; random mixed histories; adversarial "just '
             'survives" streams. Non-trivial = at least one compaction happened and at least one key was evicted or '
             'under-counted; distinct = distinct case.')
-    ASSUMPTIONS = ['keys are hashable with == consistent with hash; counts in mappings are non-negative ints',
+    ASSUMPTIONS = ['keys that count as additions are hashable with == consistent with hash, counts in mappings are '
+                   'non-negative ints; an element that is neither makes the call raise, and the additions of that call '
+                   'are the ones performed before the exception',
                    'model parameter w = floor(1/threshold) is computed by the harness with float division for float '
                    'thresholds; Fraction / Decimal thresholds are handed to the model as p/q (its constructor derives w)',
                    'a ThresholdCounter passed to update() counts as the mapping its items() reports at that moment']
@@ -802,8 +812,9 @@ class C20(Property):
     def up_effect(self, case, op):
         """('keys', [k..]) / ('map', [[k, c]..]) / None for the positional argument of an 'up' op, in the
         order in which the standard-library object yields them. Where the call meets something it cannot take
-        the list ends with a marker: 'B' = an unhashable key (the call is inside add() when it raises),
-        'S' = a non-integer count / the caller's object itself raised there (no add() is running)."""
+        the list ends with a marker (a str): 'B' = an unhashable key (the call is inside add() when it raises;
+        'B<c>' = a mapping entry asking for c additions of such a key), 'S' = a non-integer count / the caller's
+        object itself raised there (no add() is running)."""
         kp = case.get('kp', 0)
         kind, data = op[1], op[2]
         if kind == 'none':
@@ -828,7 +839,7 @@ class C20(Property):
                 i = self.kidx(case, k)
                 if i is None:
                     if c > 0:
-                        out.append('B')
+                        out.append('B%d' % c)      # rejected with a count of c
                         break
                     continue
                 out.append([i, c])
@@ -856,8 +867,8 @@ class C20(Property):
     def plan(self, case, op):
         """(sequence, fail) of one addition-type op: the additions the call asks for in the canonical order
         (positional argument as its object yields them, then keyword counts) up to the point where it meets
-        something it cannot take; fail = None (the call is expected to return), 'B' (it raises inside add():
-        rejected key) or 'S' (it raises outside add())"""
+        something it cannot take; fail = None (the call is expected to return), 'B' / 'B<c>' (it raises inside
+        add(): rejected key, asked for c times) or 'S' (it raises outside add())"""
         kind = op[0]
         if kind == 'ax':
             return [], 'B'
@@ -868,7 +879,7 @@ class C20(Property):
         parts = ([] if eff is None else [eff]) + [('map', self.kw_effect(op))]
         for what, items in parts:
             for it in items:
-                if it in ('B', 'S'):
+                if isinstance(it, str):
                     return seq, it
                 if what == 'keys':
                     seq.append(it)
@@ -911,10 +922,10 @@ class C20(Property):
     # ------------------------------------------------------------------ model line
     def line(self, case):
         def ps(l):      # 'B' / 'S' markers (the call raises there) travel as `!`
-            return ','.join('!' if p in ('B', 'S') else '%d:%d' % (p[0], p[1]) for p in l) or '-'
+            return ','.join('!' if isinstance(p, str) else '%d:%d' % (p[0], p[1]) for p in l) or '-'
 
         def ns(l):
-            return ','.join('!' if k in ('B', 'S') else str(k) for k in l) or '-'
+            return ','.join('!' if isinstance(k, str) else str(k) for k in l) or '-'
         ni = case.get('ni', 1)
         ex = self.th_exact(case)
         # exact thresholds (Fraction / Decimal) go to the model as p/q: its constructor derives the bucket width
@@ -990,6 +1001,8 @@ class C20(Property):
                 return '?%r' % (obj,)
         cf = case.get('cf', 0)      # call forms: 1 = every argument that can be passed by keyword is
         fed = []                    # keys a live iterator over a counter handed to update()
+        phase = ['']
+        accepted = [False]
 
         def spy(it):
             for k in it:
@@ -1100,15 +1113,21 @@ class C20(Property):
                         raised = exc_name(e)
                     if arg is not None:
                         spoil(arg)
+                    if may_raise and raised is None and kind in ('ax', 'up'):
+                        accepted[0] = True      # the call took an argument outside the statement's domain
                     if self.dumps_after(case, opi):
+                        phase[0] = 'the readers after '
                         rec = {'d': [self.dump(t, case, kname) for t in tcs]}
+                        phase[0] = ''
                         if raised is not None and kind not in ('rx', 'cx'):   # whether a READER raises is free
                             rec['raised'] = raised
+                        if accepted[0]:
+                            rec['accepted'] = True
                         if kind in ('te', 'tk'):
                             rec['fed'] = list(fed)
                         out.append(rec)
         except Exception as e:  # recorded, judged by the oracle
-            out.append({'exc': exc_name(e), 'msg': str(e)[:200]})
+            out.append({'exc': exc_name(e), 'msg': str(e)[:200], 'phase': phase[0], 'accepted': accepted[0]})
         return out
 
     @staticmethod
@@ -1241,43 +1260,24 @@ class C20(Property):
     # ------------------------------------------------------------------ oracle (independent of the model)
     def call_effects(self, case, op, o, last_items):
         """(sequence of key names the call adds in canonical order up to the point where it meets something it
-        cannot take, fail, all) - fail: None = the call is expected to return, 'B' = it raises inside add() on a
-        key the counter rejects, 'S' = it raises elsewhere (non-integer count, the caller's iterable raised);
-        all = every valid addition the argument visibly asks for (a call that swallows the problem and goes on)"""
+        cannot take, fail) - fail: None = the call is expected to return, 'B' = it raises inside add() on a
+        key the counter rejects, 'S' = it raises elsewhere (non-integer count, the caller's iterable raised)"""
         kind = op[0]
         if kind in ('rx', 'cx'):
-            return [], 'S', []
+            return [], 'S'
         if kind == 'ax':
-            return [], 'B', []
+            return [], 'B'
         if kind in ('te', 'tk'):
-            return list(o.get('fed', [])), ('S' if o.get('raised') else None), list(o.get('fed', []))
+            return list(o.get('fed', [])), ('S' if o.get('raised') else None)
         if kind == 't':
             seq = [k for k, c in last_items[op[1]] for _ in range(c)]
-            return seq, None, seq
+            return seq, None
         if kind != 'up':
             seq = ['k%d' % k for k in self.ordered_additions(case, op)]
-            return seq, None, seq
+            return seq, None
         seq, fail = self.plan(case, op)
         seq = ['k%d' % k for k in seq]
-        if fail is None:
-            return seq, None, seq
-        allv = []
-        if op[1] in ITER_KINDS:
-            for k in op[2]:
-                if k == STOP:
-                    break
-                if k >= 0:
-                    allv.append('k%d' % k)
-        elif op[1] != 'none':
-            for k, c in op[2]:
-                if k == STOP:
-                    break
-                if k >= 0 and c >= 0:
-                    allv += ['k%d' % k] * c
-        for k, c in (op[3] or []):
-            if c >= 0:
-                allv += ['k%d' % k] * c
-        return seq, fail, allv
+        return seq, fail
 
     @staticmethod
     def _extend(world, names, rej=0):
@@ -1295,19 +1295,19 @@ class C20(Property):
         A rejected KEY may in addition have been counted in `total` although nothing was stored (known finding
         C20-rejected-key-counted: readings with rej > 0). Only readings that explain the `total` the counter
         reports are kept (at most two per earlier reading)."""
-        seq, fail, allv = self.call_effects(case, op, o, last_items)
+        seq, fail = self.call_effects(case, op, o, last_items)
         if fail is None:
             return [self._extend(wd, seq) for wd in worlds]
         out = []
         for wd in worlds:
-            cands = [(p, r) for r in ((0, 1) if fail == 'B' else (0,)) for p in range(len(seq), -1, -1)]
+            # a rejected key may have been counted in total: once on the code as it is, at most as often as the
+            # call asks for it (an implementation that adds a mapping entry's count in one step)
+            rmax = int(fail[1:] or 1) if fail.startswith('B') else 0
+            cands = [(p, r) for r in range(rmax + 1) for p in range(len(seq), -1, -1)]
             for p, r in cands:
                 if isinstance(seen_total, int) and wd[1] + wd[2] + p + r != seen_total:
                     continue
                 out.append(self._extend(wd, seq[:p], r))
-            if not o.get('raised') and isinstance(seen_total, int) and wd[1] + wd[2] + len(allv) == seen_total \
-                    and len(allv) != len(seq):
-                out.append(self._extend(wd, allv))
         if not out:     # nothing explains the reported total: judged (and reported) against the code's own reading
             out = [self._extend(wd, seq) for wd in worlds]
         return out
@@ -1342,8 +1342,13 @@ class C20(Property):
                 return Failure('missing', 'no observation for op %r' % (op,))
             o = obs[oi]
             oi += 1
+            if o.get('accepted'):
+                # an earlier call RETURNED NORMALLY on an argument outside the statement's domain (an unhashable
+                # key, a non-integer count): the statement says nothing about what such a counter does from then
+                # on (a float count may sit in it). Judging stops here; the correspondence still compares.
+                break
             if 'exc' in o:
-                return Failure('raises', '%s raised %s: %s' % (op, o['exc'], o.get('msg')))
+                return Failure('raises', '%s%s raised %s: %s' % (o.get('phase', ''), op, o['exc'], o.get('msg')))
             if kind == 'q':
                 # judged against the previous dump's items
                 n = op[1]
